@@ -423,6 +423,8 @@ def run(ctx, progs):
         c08.r10_in_place_map_gate(ctx, P, R="C01.R15")
         from . import c12 as _c12
         _c12.r6_prepare_pads_layout(ctx, P, R="C01.R16")
+        from . import c07 as _c07
+        _c07.r7_address_subtraction(ctx, P, R="C01.R17")
     ctx.config = None
 
 
